@@ -177,7 +177,10 @@ def gen_algebra(rng, d):
     rules, used = [], set()
     for _ in range(rng.choice([1, 1, 2])):
         x = rng.choice(syl)
-        if rng.random() < .7 and len(syl) > 1:
+        r = rng.random()
+        if r < .2 and len(syl) > 1:      # a derived spelling that strictly extends another syllable's name
+            y = rng.choice([s for s in syl if s != x]) + rng.choice(d["letters"])
+        elif r < .75 and len(syl) > 1:
             y = rng.choice([s for s in syl if s != x])
         else:
             y = "".join(rng.choice(d["letters"]) for _ in range(rng.randint(1, 2)))
@@ -631,7 +634,7 @@ class Ref:
         if not has_sentence:
             # judged by what the entries are, not by the type label: a maximal run of entries whose code equals the
             # input (non-increasing weight), then only entries whose code strictly extends it (completion enabled)
-            in_exact_part, lastc = True, None
+            in_exact_part, lastc, breaker_short_named = True, None, False
             for c in cands:
                 if c["type"] == "NULL" or c["start"] != 0 or c["end"] != n or not c["code"] or len(c["code"]) != 1 or \
                         c["type"] not in ("table", "completion"):
@@ -643,12 +646,17 @@ class Ref:
                         fails.append(("weight-order", cand_key(lastc) + " before " + cand_key(c)))
                     lastc = c
                     continue
+                if in_exact_part:
+                    # the artifact of remaining_code being computed from the syllable's NAME: an entry reached through a
+                    # longer derived spelling whose own name is no longer than the input is ranked as if it were exact
+                    breaker_short_named = ts in ext and len(self.syl[ts[1]]) <= len(code)
                 in_exact_part = False
                 if ts in ext:
                     if not v["completion"]:
                         fails.append(("completion-when-disabled", cand_key(c)))
                 elif ts in exact:
-                    fails.append(("exact-after-completion", cand_key(c)))
+                    fails.append(("exact-after-short-named-completion" if breaker_short_named else "exact-after-completion",
+                                  cand_key(c)))
                 else:
                     fails.append(("foreign-candidate", cand_key(c)))
             for (t, sid) in exact:
